@@ -3,6 +3,7 @@ import PkgModel.PyObj
 import PkgProofs.Lemmas.PyRt
 import PkgProofs.Lemmas.SrcRobust
 import PkgProofs.Lemmas.SrcLoops
+import PkgProofs.Lemmas.SrcTrailing
 /-!
 # Translated source of `packaging.version._cmpkey` = `V.cmpkey`
 -/
@@ -40,64 +41,6 @@ theorem local_key (l : List LSeg) :
     cases s <;> simp [ofLSeg, ofKSeg, isinstance, className]
   · intro x _
     split <;> simp [ofString]
-
-theorem fuelOf_succ' (l : List PyVal) : fuelOf l = (4 * sizeL l + 15) + 1 := by simp [fuelOf]
-
-/-! ### trailing zeros by an index loop walking back from the end -/
-
-/-- the loop test `k > 0 and r[k - 1] == 0` on the index -/
-def tzC (r : List Nat) : PyVal → Bool
-  | .int (Int.ofNat (j + 1)) => r.getD j 1 == 0
-  | _ => false
-def tzS : PyVal → PyVal
-  | .int k => .int (k - 1)
-  | x => x
-def tzM : PyVal → Nat
-  | .int k => k.toNat
-  | _ => 0
-def tzI (r : List Nat) (s : PyVal) : Prop := ∃ k : Nat, k ≤ r.length ∧ s = .int k
-
-theorem tzC_zero (r : List Nat) : tzC r (.int ((0 : Nat) : Int)) = false := by rfl
-theorem tzC_succ (r : List Nat) (k : Nat) : tzC r (.int ((k + 1 : Nat) : Int)) = (r.getD k 1 == 0) := by rfl
-theorem tzS_succ (k : Nat) : tzS (.int ((k + 1 : Nat) : Int)) = .int ((k : Nat) : Int) := by
-  simp only [tzS]; congr 1; omega
-
-theorem dropTrailingZeros_snoc_zero (l : List Nat) : dropTrailingZeros (l ++ [0]) = dropTrailingZeros l := by
-  simp [dropTrailingZeros]
-theorem dropTrailingZeros_snoc_nz (l : List Nat) (x : Nat) (h : x ≠ 0) : dropTrailingZeros (l ++ [x]) = l ++ [x] := by
-  simp [dropTrailingZeros, h]
-
-theorem tz_end (r : List Nat) : ∀ (n k : Nat), k ≤ n → k ≤ r.length →
-    ∃ j : Nat, whileEnd (tzC r) tzS n (.int ((k : Nat) : Int)) = .int ((j : Nat) : Int) ∧ r.take j = dropTrailingZeros (r.take k) := by
-  intro n
-  induction n with
-  | zero => intro k hk _; have : k = 0 := by omega
-            subst this; exact ⟨0, rfl, by simp [dropTrailingZeros]⟩
-  | succ n ih =>
-    intro k hk hlen
-    cases k with
-    | zero => exact ⟨0, by simp only [whileEnd, tzC_zero]; rfl, by simp [dropTrailingZeros]⟩
-    | succ k =>
-      have hk' : k < r.length := by omega
-      have htake : r.take (k + 1) = r.take k ++ [r[k]] := by
-        rw [List.take_add_one]; simp [List.getElem?_eq_getElem hk']
-      have hget : r.getD k 1 = r[k] := by simp [List.getD_eq_getElem?_getD, List.getElem?_eq_getElem hk']
-      by_cases hz : r[k] = 0
-      · have hc : tzC r (.int ((k + 1 : Nat) : Int)) = true := by rw [tzC_succ, hget, hz]; rfl
-        obtain ⟨j, h1, h2⟩ := ih k (by omega) (by omega)
-        refine ⟨j, ?_, ?_⟩
-        · simp only [whileEnd, hc, if_true, tzS_succ]; exact h1
-        · rw [h2, htake, hz, dropTrailingZeros_snoc_zero]
-      · have hc : tzC r (.int ((k + 1 : Nat) : Int)) = false := by
-          rw [tzC_succ, hget]; simpa using hz
-        refine ⟨k + 1, by simp only [whileEnd, hc]; rfl, ?_⟩
-        rw [htake, dropTrailingZeros_snoc_nz _ _ hz]
-
-
-theorem getitem_tuple_nat (l : List PyVal) (i : Nat) (h : i < l.length) :
-    getitem (.tuple l) (.int i) = .ok (l.getD i .none) := by
-  simp [getitem, asInt, normIndex, h]
-
 
 /-- `_cmpkey(epoch, release, pre, post, dev, local)` on the fields of a `_Version` builds the model's key.
 Two ways of stripping the trailing zeros of the release are accepted: the `reversed`/`dropwhile` pipeline, and an index `while`
